@@ -4,6 +4,9 @@ confirmation by replay), write evidence."""
 import hashlib, json, os, re, shutil, subprocess, sys, time, glob, tempfile, signal
 
 VERIF = os.path.dirname(os.path.dirname(os.path.abspath(__file__)))
+# dev only: scratch output directories, so that a run against a scratch copy of the repository (VERIF_REPO) leaves /verif alone
+EVIDENCE_DIR = os.environ.get('VERIF_EVIDENCE_DIR', os.path.join(VERIF, 'evidence'))
+REPLAY_DIR = os.environ.get('VERIF_REPLAY_DIR', os.path.join(VERIF, 'replays'))
 REPO = os.environ.get('VERIF_REPO', '/repo')
 SIM = os.path.join(VERIF, 'sim')
 BUILD_ROOT = os.path.join(VERIF, '.build')
@@ -71,8 +74,12 @@ def prune_builds(keep):
     ds = [os.path.join(BUILD_ROOT, d) for d in os.listdir(BUILD_ROOT)]
     ds = [d for d in ds if os.path.isdir(d) and os.path.basename(d) != keep and not os.path.basename(d).startswith('grpc-')]
     ds.sort(key=lambda d: os.path.getmtime(d), reverse=True)
-    for d in ds[2:]:
-        shutil.rmtree(d, ignore_errors=True)
+    # keep the newest few, and never remove a directory that was used in the last hours: another
+    # check (of another tree, e.g. a scratch copy) may be running out of it right now
+    now = time.time()
+    for d in ds[3:]:
+        if now - os.path.getmtime(d) > 4 * 3600:
+            shutil.rmtree(d, ignore_errors=True)
 
 
 class BuildError(Exception):
@@ -344,8 +351,8 @@ def is_known(v, known):
 # ----------------------------------------------------------------- evidence
 
 def write_evidence(prop, ev):
-    os.makedirs(os.path.join(VERIF, 'evidence'), exist_ok=True)
-    p = os.path.join(VERIF, 'evidence', prop + '.json')
+    os.makedirs(os.path.join(EVIDENCE_DIR), exist_ok=True)
+    p = os.path.join(EVIDENCE_DIR, prop + '.json')
     json.dump(ev, open(p + '.tmp', 'w'), indent=1, sort_keys=True)
     os.replace(p + '.tmp', p)
 
@@ -476,7 +483,7 @@ def finish(prop, tier, seed, mode, pr, binary, th, lines, problems, known, t0):
     replay_stats = dict(replayed=0, reproduced=0, diverged=0)
     min_reports = []
     if mine:
-        os.makedirs(os.path.join(VERIF, 'replays'), exist_ok=True)
+        os.makedirs(os.path.join(REPLAY_DIR), exist_ok=True)
         seen_classes = set()
         for l, v in mine:
             cls = (v['Rule'], v.get('Key', ''))
@@ -486,7 +493,7 @@ def finish(prop, tier, seed, mode, pr, binary, th, lines, problems, known, t0):
             if len(seen_classes) > MAX_REPORTED:
                 continue
             rf = l.get('Replay')
-            path = os.path.join(VERIF, 'replays', '%s-%s-%d.json' % (prop, v['Rule'], l['Seed']))
+            path = os.path.join(REPLAY_DIR, '%s-%s-%d.json' % (prop, v['Rule'], l['Seed']))
             if rf:
                 rf.update(Property=prop, Rule=v['Rule'], Key=v.get('Key', ''), Detail=v['Detail'], TreeHash=th)
                 json.dump(rf, open(path, 'w'), indent=1)
@@ -651,7 +658,7 @@ def run_race_check(prop, tier, seed):
                 found.setdefault(key, []).append((s, report, line))
     known, _ = load_known()
     reported, known_seen = [], {}
-    os.makedirs(os.path.join(VERIF, 'replays'), exist_ok=True)
+    os.makedirs(os.path.join(REPLAY_DIR), exist_ok=True)
     for key, xs in sorted(found.items()):
         v = dict(Property=prop, Rule='data-race', Key=key)
         k = is_known(v, known)
@@ -660,7 +667,7 @@ def run_race_check(prop, tier, seed):
             print('KNOWN-FINDING: property=%s rule=data-race key=%s seen=%d first-seed=%d %s' % (prop, key, len(xs), xs[0][0], k['text']))
             continue
         s0, report, line = xs[0]
-        path = os.path.join(VERIF, 'replays', '%s-data-race-%d.json' % (prop, s0))
+        path = os.path.join(REPLAY_DIR, '%s-data-race-%d.json' % (prop, s0))
         rf = (line or {}).get('Replay') or dict(Seed=s0, Profile=prop, Tier=tier)
         rf.update(Property=prop, Rule='data-race', Key=key, Detail=report[:6000], Mode='L1race', TreeHash=th, Seed=s0, Profile=prop, Tier=tier)
         json.dump(rf, open(path, 'w'), indent=1)
@@ -674,7 +681,7 @@ def run_race_check(prop, tier, seed):
     nt = set()
     for l in lines:
         prog = (l.get('Replay') or {}).get('Program') or {}
-        busy = sum(1 for th in prog.get('Threads') or [] if any(op.get('Kind') in ('call', 'newcfg', 'inspect-loop', 'close') for op in th.get('Ops') or []))
+        busy = sum(1 for th in prog.get('Threads') or [] if any(op.get('Kind') in ('call', 'newcfg', 'cfgstorm', 'inspect-loop', 'close') for op in th.get('Ops') or []))
         if busy >= 2:
             nt.add(l['SchedSig'])
     agg['distinct_nontrivial'] = len(nt)
@@ -779,18 +786,23 @@ def run_gen_check(prop, tier, seed):
         die(2, 'generator harness failed (rc=%d):\n%s\n%s' % (p.returncode, p.stdout[-2000:], p.stderr[-2000:]))
     known, _ = load_known()
     reported, known_seen = [], {}
-    os.makedirs(os.path.join(VERIF, 'replays'), exist_ok=True)
+    os.makedirs(os.path.join(REPLAY_DIR), exist_ok=True)
     viols = list(res.get('violations') or [])
     # by-product: what the plugin emits for the (variant) zorums inputs must compile
     compiled = 0
     pb = open(os.path.join(REPO, 'cmd/protoc-gen-gorums/dev/zorums.pb.go')).read()
     pb = re.sub(r'(?m)^package \w+$', 'package x', pb)
-    for d in sorted(glob.glob(os.path.join(emit, 'v*'))):
+    dirs = sorted(glob.glob(os.path.join(emit, 'v*')))
+    for d in dirs:
         open(os.path.join(d, 'zorums.pb.go'), 'w').write(pb)
+    compiled = len(dirs)
+    # all variants in one build; only if that fails, one build per variant to say which
+    rc_all, _ = sh([GO_OLD, 'build', './' + os.path.relpath(emit, g) + '/...'], cwd=g, env=env) if dirs else (0, '')
+    for d in (dirs if rc_all != 0 else []):
         rc, out = sh([GO_OLD, 'build', './' + os.path.relpath(d, g)], cwd=g, env=env)
-        compiled += 1
         if rc != 0:
-            viols.append(dict(Rule='emits-code-that-does-not-compile', Key='zorums-variant', Input=open(os.path.join(d, 'INPUT.txt')).read(), Seed=0, Detail=out[:1500]))
+            inp = open(os.path.join(d, 'INPUT.txt')).read()
+            viols.append(dict(Rule='emits-code-that-does-not-compile', Key='zorums-single-method' if '-only:' in inp else 'zorums-variant', Input=inp, Seed=0, Detail=out[:1500]))
     for v in viols:
         vv = dict(Property=prop, Rule=v['Rule'], Key=v['Key'])
         k = is_known(vv, known)
@@ -798,7 +810,7 @@ def run_gen_check(prop, tier, seed):
             known_seen[v['Rule'] + '/' + v['Key']] = known_seen.get(v['Rule'] + '/' + v['Key'], 0) + 1
             print('KNOWN-FINDING: property=%s rule=%s key=%s %s' % (prop, v['Rule'], v['Key'], k['text']))
             continue
-        path = os.path.join(VERIF, 'replays', '%s-%s-%d-%s.json' % (prop, v['Rule'], v['Seed'], hashlib.sha256(v['Input'].encode()).hexdigest()[:8]))
+        path = os.path.join(REPLAY_DIR, '%s-%s-%d-%s.json' % (prop, v['Rule'], v['Seed'], hashlib.sha256(v['Input'].encode()).hexdigest()[:8]))
         json.dump(dict(Property=prop, Rule=v['Rule'], Key=v['Key'], Detail=v['Detail'], Mode='gen16', Input=v['Input'], Seed=v['Seed'], TreeHash=th), open(path, 'w'), indent=1)
         print('VIOLATION property=%s replay=%s' % (prop, path))
         print('  rule=%s key=%s input=%s seed=%s: %s' % (v['Rule'], v['Key'], v['Input'][:80], v['Seed'], v['Detail'][:600]))
